@@ -108,18 +108,18 @@ func init() {
 		ID:    "C09",
 		Level: "exploration",
 		Rule: "every composition to depth 2 (quick, 90 shapes) / 3 (thorough, 819 shapes) of the nine tail contexts {cond arm 1, cond arm 2, cond default, begin, let, letseq, newScope, last of and, last of or} around a self call, times seven bodies (nothing; defines locals; opens/closes scopes and a loop before the call; accumulates closures capturing the parameter and a local; another self call inside an argument of the tail call; the argument itself being a self call; the same below cond/let inside the argument). " +
-			"(a) space: each shape is run at depths 0,1,10,30,100,300,1000 (10^4 for every ninth case in quick and for all in thorough; thorough +10^5, some 10^6; the closure-accumulating body up to 300) while the step hook samples the high-water marks of the data/scope/address/loop stacks; they must be identical for all n>=10 and the run must finish within a step budget linear in n. " +
+			"(a) space: each shape is run at depths 0,1,10,30,100,300,1000 (10^4 for every ninth case in quick and every second in thorough; thorough 10^5 for every ninth case and 10^6 for every 360th; the closure-accumulating body up to 300) while the step hook samples the high-water marks of the data/scope/address/loop stacks; they must be identical for all n>=10 and the run must finish within a step budget linear in n. " +
 			"(b) transparency: value, effect trace and (closure body) the values obtained by calling every accumulated closure equal those of the de-optimised twin (self call wrapped in a host identity call, so not in tail position) on the real VM for n<=100, and those of the reference evaluator (which has no tail calls) for all n. non-trivial = every (shape, body) pair (distinct by construction)",
 		Assumptions: []string{
 			"constant space is checked as equality of stack high-water marks over the explored depths, not for all depths",
 			"heap growth is not judged (the closure-accumulating body grows its accumulator by design)",
 		},
-		NCases: func(c *core.Ctx) int { return len(c09Shapes(thorN(c, 2, 3))) * c09Bodies },
-		Chunk:  15,
-		Exhaustive: func(c *core.Ctx) bool { return true },
-		MustSee: []string{"depth_runs", "twin_comparisons", "reference_comparisons", "highwater_samples"},
+		NCases:       func(c *core.Ctx) int { return len(c09Shapes(thorN(c, 2, 3))) * c09Bodies },
+		Chunk:        15,
+		Exhaustive:   func(c *core.Ctx) bool { return true },
+		MustSee:      []string{"depth_runs", "twin_comparisons", "reference_comparisons", "highwater_samples"},
 		CaseTimeoutS: 120,
-		Run:    c09Run,
+		Run:          c09Run,
 	})
 }
 
@@ -132,12 +132,12 @@ func c09Run(c *core.Ctx, i int) *core.Result {
 	res := &core.Result{Input: fmt.Sprintf("shape=%s body=%d\n%s", strings.Join(shape, ">"), body, text), Nontrivial: true}
 	res.Hash = core.HashOf(res.Input)
 	depths := []int64{0, 1, 10, 30, 100, 300, 1000}
-	if c.Thor || i%9 == 0 {
+	if (c.Thor && i%2 == 0) || i%9 == 0 {
 		depths = append(depths, 10000)
 	}
-	if c.Thor {
+	if c.Thor && i%9 == 0 {
 		depths = append(depths, 100000)
-		if i%40 == 0 && body != 3 && body != 4 {
+		if i%360 == 0 && body != 3 && body != 4 {
 			depths = append(depths, 1000000)
 		}
 	}
